@@ -14,7 +14,8 @@ def PanicRes (r : Except Err Nat) : Prop := ∃ s, r = .error (.panic s)
 def ResRel (tbl : Table) (fs : FlagMap) (inpW : Bytes) (δ : Nat) (K : Nat → κ → κ → Prop) (last : Bool)
     (ps' pw' : Parser κ) : Except Err Nat → Except Err Nat → Prop
   | .ok c, .ok c' => ∃ d', c' + d' = c + δ ∧ K d' ps'.x.sink pw'.x.sink ∧
-      (last = false → PRelM tbl fs inpW d' d' 0 ps' (ps'.machine false) pw' (pw'.machine false))
+      (last = false → PRelM tbl fs inpW d' d' 0 ps' (ps'.machine false) pw' (pw'.machine false)) ∧
+      (last = true → d' = 0)
   | .error e, .error e' => e' = e
   | _, _ => False
 
@@ -45,11 +46,12 @@ theorem plock (F : Frame inpS inpW δ) (hcl : Closed inpS inpW δ) (hops : OpsSi
         | err e => exact hlo.elim
         | directive d' b' => exact hlo.elim
         | endOfInput c' =>
-          obtain ⟨_, d', h1, h2, h3, h4, h5⟩ := hlo
+          obtain ⟨_, d', h1, h2, h3, h4, h5, h6⟩ := hlo
           right
           have hsk1 : (bump (p.store m') c).x.sink = m'.x.sink := by simp [bump, store_x]
           have hsk2 : (bump (pw.store mw') c').x.sink = mw'.x.sink := by simp [bump, store_x]
-          refine ⟨_, _, PRunsM.eoi hrw, d', h1, (by rw [hsk1, hsk2]; exact h2), fun hlast => ?_⟩
+          refine ⟨_, _, PRunsM.eoi hrw, d', h1, (by rw [hsk1, hsk2]; exact h2), fun hlast => ?_,
+            fun hlast => h6 (by rw [hrun.stable.2, hl]; exact hlast)⟩
           subst hlast
           obtain ⟨hk1, hl1⟩ := hrun.stable
           obtain ⟨hk2, hl2⟩ := hrw.stable
